@@ -103,6 +103,8 @@ class SimSocket:
         data = bytes(data)
         sim.log(sim.name(), "sock.send", data)
         self.tx.write(data)
+        # the peer may answer before the caller executes its next statement
+        sim.yield_("sock.sent")
         return len(data)
 
     sendall = send
@@ -161,7 +163,14 @@ class SelectModule:
     time (or until something becomes readable): equivalent to the real busy
     loop, minus the spinning."""
 
-    POLL_QUANTUM_US = 5_000_000
+    # A zero-timeout poll that finds nothing "costs" simulated time: 1 ms
+    # for the first idle poll of a thread, doubling up to 250 ms while the
+    # line stays silent, back to 1 ms as soon as something was readable.  The
+    # poll still returns at once when data arrives, so a correct busy loop
+    # behaves as in reality, while code that reacts to idle polls (sleeps,
+    # back-off, counters) gets to see them at a realistic rate.
+    POLL_MIN_US = 1_000
+    POLL_MAX_US = 250_000
 
     @classmethod
     def select(cls, rlist, wlist, xlist, timeout=None):
@@ -176,7 +185,13 @@ class SelectModule:
             if timeout is None:
                 sim.block(lambda: bool(ready()), None, "select.wait")
             else:
-                us = int(timeout * 1e6) or cls.POLL_QUANTUM_US
+                us = int(timeout * 1e6)
+                if not us:
+                    t = sim.me()
+                    us = getattr(t, "poll_us", cls.POLL_MIN_US)
+                    t.poll_us = min(2 * us, cls.POLL_MAX_US)
                 sim.block(lambda: bool(ready()), us, "select.wait")
             r = ready()
+        if r and sim.me() is not None:
+            sim.me().poll_us = cls.POLL_MIN_US
         return r, list(wlist), []
